@@ -145,11 +145,14 @@ theorem abortSavepoint_shrink {P s} (h : Str P s) : Shrink s (abortSavepoint s) 
   split
   · exact Shrink.refl s
   · rename_i t ht
+    dsimp only
     have h1 := invalidateCreating_shrink h t.creating.keys
     have h1s := invalidateCreating_str h t.creating.keys
     have h2 : Shrink s { invalidateCreating s t.creating.keys with sp := none } :=
       h1.congr rfl rfl rfl rfl rfl rfl rfl
-    exact h2.trans (invalidateAll_shrink (h1s.congr rfl rfl rfl rfl) _)
+    have h2s : Str P { invalidateCreating s t.creating.keys with sp := none } :=
+      h1s.congr rfl rfl rfl rfl
+    exact h2.trans (invalidateAll_shrink h2s _)
 
 theorem connAbort_shrink {P s} (h : Str P s) : Shrink s (connAbort s) := by
   unfold connAbort tpcCleanup
@@ -160,5 +163,216 @@ theorem connAbort_shrink {P s} (h : Str P s) : Shrink s (connAbort s) := by
   have h2s := abortSavepoint_str h1s
   have h3 := invalidateCreating_shrink h2s (abortSavepoint (abortObjs s)).creating.keys
   exact ((h1.trans h2).trans h3).congr rfl rfl rfl rfl rfl rfl rfl
+
+
+theorem drainAdded_shrink {P s} (h : Str P s) : Shrink s (drainAdded s) := by
+  unfold drainAdded
+  dsimp only
+  suffices h' : ∀ (l : Map ObjId) (t : State), Str P t → t.added = l →
+      Shrink t (l.foldl (fun (s : State) (p : Oid × ObjId) =>
+        disown { s with added := s.added.del p.1 } p.2) t) by
+    have h1 := h' s.added s h rfl
+    refine Shrink.congr (s' := { _ with added := [] }) ?_ rfl rfl rfl rfl rfl rfl rfl
+    constructor
+    · exact h1.cache
+    · intro k i hk; simp at hk
+    · exact h1.oid
+    · exact h1.val
+    · exact h1.status
+    · exact h1.ghostKept
+    · exact h1.noneKept
+    · exact h1.lost
+    · exact h1.d2
+    · exact h1.nextOid
+    · exact h1.snap
+    · exact h1.opened
+  intro l
+  induction l with
+  | nil => intro t _ _; exact Shrink.refl t
+  | cons x rest ih =>
+    obtain ⟨k, i⟩ := x
+    intro t ht hl
+    simp only [List.foldl_cons]
+    have hs := ht.addedSorted
+    rw [hl] at hs
+    have hget : t.added.get k = some i := by rw [hl]; simp [Map.get]
+    have ⟨hoid, hc⟩ := ht.addedS k i hget
+    have hrem := ht.remove i k hoid
+    have hsh := remove_shrink t i k hoid
+    rw [Map.del_of_get_none t.cache k hc] at hrem hsh
+    refine Shrink.trans (b := disown { t with added := t.added.del k } i)
+      (hsh.congr rfl rfl rfl rfl rfl rfl rfl) (ih _ (hrem.congr rfl rfl rfl rfl) ?_)
+    show t.added.del k = rest
+    rw [hl]; exact Map.del_head_sorted hs
+
+theorem connTpcAbort_shrink {P s} (h : Str P s) : Shrink s (connTpcAbort s) := by
+  unfold connTpcAbort tpcCleanup
+  dsimp only
+  split
+  · exact Shrink.refl s
+  · have h1 := abortSavepoint_shrink h
+    have h1s := abortSavepoint_str h
+    have h2s : Str P { abortSavepoint s with staged := [] } := h1s.congr rfl rfl rfl rfl
+    have h2 : Shrink s { abortSavepoint s with staged := [] } := h1.congr rfl rfl rfl rfl rfl rfl rfl
+    have h3 := invalidateAll_shrink h2s (abortSavepoint s).modified
+    have h3s := invalidateAll_str h2s (abortSavepoint s).modified
+    have h4 := invalidateCreating_shrink h3s
+      (invalidateAll { abortSavepoint s with staged := [] } (abortSavepoint s).modified).creating.keys
+    have h4s := invalidateCreating_str h3s
+      (invalidateAll { abortSavepoint s with staged := [] } (abortSavepoint s).modified).creating.keys
+    have h5s : Str P { invalidateCreating
+      (invalidateAll { abortSavepoint s with staged := [] } (abortSavepoint s).modified)
+      (invalidateAll { abortSavepoint s with staged := [] } (abortSavepoint s).modified).creating.keys
+        with creating := [] } := h4s.congr rfl rfl rfl rfl
+    have h5 := drainAdded_shrink h5s
+    refine Shrink.congr (s' := drainAdded _) ?_ rfl rfl rfl rfl rfl rfl rfl
+    exact ((h2.trans h3).trans (h4.congr rfl rfl rfl rfl rfl rfl rfl)).trans h5
+
+theorem cleanup_shrink {P s} (h : Str P s) (v) : Shrink s (cleanup v s) := by
+  unfold cleanup
+  split
+  · exact connTpcAbort_shrink h
+  · exact (connAbort_shrink h).trans (connTpcAbort_shrink (connAbort_str h))
+
+theorem rollbackSavepoint_shrink {P s} (h : Str P s) (p idx cr) :
+    Shrink s (rollbackSavepoint s p idx cr) := by
+  unfold rollbackSavepoint
+  dsimp only
+  have h1 := abortObjs_shrink h
+  have h1s := abortObjs_str h
+  split
+  · exact h1.congr rfl rfl rfl rfl rfl rfl rfl
+  · rename_i t ht
+    have h2s : Str P { abortObjs s with registered := [] } := h1s.congr rfl rfl rfl rfl
+    have h3 := invalidateCreating_shrink h2s (t.creating.keys.filter fun k => !cr.has k)
+    have h3s := invalidateCreating_str h2s (t.creating.keys.filter fun k => !cr.has k)
+    have h4s : Str P { invalidateCreating { abortObjs s with registered := [] }
+        (t.creating.keys.filter fun k => !cr.has k) with sp := some (t.reset p idx cr) } :=
+      h3s.congr rfl rfl rfl rfl
+    have h4 := invalidateAll_shrink h4s t.index.keys
+    exact ((h1.congr rfl rfl rfl rfl rfl rfl rfl).trans
+      (h3.congr rfl rfl rfl rfl rfl rfl rfl)).trans h4
+
+/-! ### effects: what is guaranteed to have happened -/
+
+/-- generic: each step establishes a property for its own element, and later steps keep it -/
+theorem foldl_effect {β : Type} {P} (f : State → β → State) (Q : β → State → Prop)
+    (hstr : ∀ s x, Str P s → Str P (f s x)) (hsh : ∀ s x, Str P s → Shrink s (f s x))
+    (s0 : State)
+    (hest : ∀ t x, Str P t → Shrink s0 t → Q x (f t x))
+    (hstab : ∀ t t' x, Shrink t t' → Q x t → Q x t') :
+    ∀ (l : List β) (s : State), Str P s → Shrink s0 s → ∀ x ∈ l, Q x (l.foldl f s) := by
+  intro l
+  induction l with
+  | nil => intro s _ _ x hx; cases hx
+  | cons y t ih =>
+    intro s hs h0 x hx
+    simp only [List.foldl_cons]
+    rcases List.mem_cons.1 hx with hx | hx
+    · subst hx
+      exact hstab _ _ x (foldl_shrink f hstr hsh t _ (hstr s x hs)) (hest s x hs h0)
+    · exact ih _ (hstr s y hs) (h0.trans (hsh s y hs)) x hx
+
+/-- after `_invalidate_creating(ks)` no key of `ks` is in the cache -/
+theorem invalidateCreating_cache {P s} (h : Str P s) (ks) :
+    ∀ k ∈ ks, (invalidateCreating s ks).cache.get k = none :=
+  foldl_effect uncreate (fun k t => t.cache.get k = none)
+    (fun _ k h => uncreate_str h k) (fun _ k h => uncreate_shrink h k) s
+    (by
+      intro t k _ _
+      unfold uncreate
+      split
+      · simp [disown, setO]
+      · rename_i hn
+        cases hc : t.cache.get k with
+        | none => rfl
+        | some i => exact absurd hc (hn i))
+    (by
+      intro t t' k hsh hq
+      cases hc : t'.cache.get k with
+      | none => rfl
+      | some i => have := hsh.cache k i hc; rw [hq] at this; cases this)
+    ks s h (Shrink.refl s)
+
+/-- after `cache.invalidate(ks)` every cached object under a key of `ks` is a ghost -/
+theorem invalidateAll_ghost {P s} (h : Str P s) (ks) :
+    ∀ k ∈ ks, ∀ i, (invalidateAll s ks).cache.get k = some i →
+      ((invalidateAll s ks).objs i).status = .ghost :=
+  foldl_effect invalidate (fun k t => ∀ i, t.cache.get k = some i → (t.objs i).status = .ghost)
+    (fun _ k h => invalidate_str h k) (fun _ k h => invalidate_shrink h k) s
+    (by
+      intro t k _ _ i hi
+      unfold invalidate at hi ⊢
+      split at hi
+      · rename_i j hj
+        simp only [setO] at hi ⊢
+        rw [hj] at hi; cases hi
+        simp
+      · exact hi)
+    (by
+      intro t t' k hsh hq i hi
+      exact hsh.ghostKept i (hq i (hsh.cache k i hi)))
+    ks s h (Shrink.refl s)
+
+/-- after `_abort`: every registered object is either disowned (it was in `_added`) or a ghost -/
+theorem abortObjs_effect {s} (h : Str [] s) :
+    ∀ i ∈ s.registered, ∀ k, (s.objs i).oid = some k →
+      (s.added.get k = some i → ((abortObjs s).objs i).oid = none) ∧
+      (s.added.get k = none →
+        ((abortObjs s).objs i).status = .ghost ∨ ((abortObjs s).objs i).oid = none) := by
+  intro i hi k hk
+  have := foldl_effect (P := []) abortOne
+    (fun i t => ∀ k, (s.objs i).oid = some k →
+      (s.added.get k = some i → (t.objs i).oid = none) ∧
+      (s.added.get k = none → (t.objs i).status = .ghost ∨ (t.objs i).oid = none))
+    (fun _ k h => abortOne_str h k) (fun _ k h => abortOne_shrink h k) s
+    (by
+      intro t i ht hsh k hk
+      have hoid := hsh.oid i
+      rw [hk] at hoid
+      unfold abortOne
+      rcases hoid with hoid | hoid
+      · rw [hoid]
+        dsimp only
+        have hkn := ht.known i k hoid
+        simp only [List.not_mem_nil, or_false] at hkn
+        constructor
+        · intro ha
+          have hc := (h.addedS k i ha).2
+          have : t.added.get k = some i := by
+            rcases hkn with h1 | h1
+            · have := hsh.cache k i h1; rw [hc] at this; cases this
+            · exact h1
+          have hhas : t.added.has k = true := by rw [Map.has_iff, this]; simp
+          rw [if_pos hhas]
+          simp [disown, setO]
+        · intro ha
+          have hnone : t.added.get k = none := by
+            cases hc : t.added.get k with
+            | none => rfl
+            | some j => have := hsh.added k j hc; rw [ha] at this; cases this
+          have hhas : ¬ t.added.has k = true := by rw [Map.has_iff, hnone]; simp
+          rw [if_neg hhas]
+          rcases hkn with h1 | h1
+          · left
+            unfold invalidate
+            rw [h1]
+            simp [setO]
+          · rw [hnone] at h1; cases h1
+      · rw [hoid.1]
+        exact ⟨fun _ => hoid.1, fun _ => Or.inr hoid.1⟩)
+    (by
+      intro t t' i hsh hq k hk
+      obtain ⟨h1, h2⟩ := hq k hk
+      constructor
+      · intro ha
+        have := hsh.noneKept i (h1 ha)
+        rw [this]; exact h1 ha
+      · intro ha
+        rcases h2 ha with h3 | h3
+        · exact Or.inl (hsh.ghostKept i h3)
+        · right; rw [hsh.noneKept i h3]; exact h3)
+    s.registered s h (Shrink.refl s) i hi
+  exact this k hk
 
 end Proofs.Conn
